@@ -154,8 +154,8 @@ func c9Alphabet(perNode bool) []c9Answer {
 		for _, w := range weights {
 			for _, oa := range opts {
 				for _, ob := range opts {
-					if oa == nil && ob == nil {
-						continue
+					if oa == nil && ob == nil && w != 1 {
+						continue // a plugin that offers no node at all: once (its weight cannot matter)
 					}
 					ans := c9Answer{Weight: w, Nodes: map[string]c9Node{}}
 					if oa != nil {
@@ -176,8 +176,8 @@ func c9Alphabet(perNode bool) []c9Answer {
 			for _, r := range rates {
 				for _, ca := range capOpts {
 					for _, cb := range capOpts {
-						if ca == 0 && cb == 0 {
-							continue
+						if ca == 0 && cb == 0 && !(w == 1 && u == 0 && r == 0) {
+							continue // the empty answer once
 						}
 						ans := c9Answer{Weight: w, Nodes: map[string]c9Node{}}
 						if ca != 0 {
